@@ -148,7 +148,8 @@ Lemma copy_ok_run s b : mem b (need s) = true -> cop s = [] ->
   exists s', run s (copy_ok b) = Some s' /\ need s' = del b (need s) /\ dest s' = add b (dest s) /\ acked s' = acked s /\
              cop s' = [] /\ src s' = src s /\ queue s' = del b (queue s).
 Proof.
-  intros Hn Hc. unfold copy_ok. cbn [run step]. rewrite Hn, Hc. change (stage_of b []) with (@None stage). cbv iota.
+  intros Hn Hc. assert (Ha : add b (need s) = need s) by (unfold add; rewrite Hn; reflexivity).
+  unfold copy_ok. cbn [run step]. rewrite Hn, Hc, Ha. cbn [orb]. change (stage_of b []) with (@None stage). cbv iota.
   repeat (rewrite ?stage_cset, ?N.eqb_refl; cbn [upd src dest queue need pend okd cop acked]).
   eexists; split; [reflexivity|]. cbn [upd src dest queue need pend okd cop acked]. repeat split.
   unfold cset, cdel. cbn [filter fst]. rewrite ?N.eqb_refl. cbn [negb filter fst]. rewrite ?N.eqb_refl. reflexivity.
